@@ -139,7 +139,9 @@ def run_static(eng, p):
 
 
 def contracts(tier):
-    return [
+    from . import strategies
+    return [c for c in strategies.hier_contracts(tier)
+            if c.name == 'hier.reduce[-j 1]'] + [
         Contract('C18/static', [f'ddsmt.{m}' for m in ('nodes', 'smtlib')],
                  run_static,
                  assumptions=[
